@@ -168,6 +168,13 @@ def main():
             vacuous.append('%s:%s' % (u, fn))
     # other engines
     kani_res = extra.get('kani')
+    # what this check does NOT decide: the level_note of MANIFEST.json (generated from vx/manifest.py), copied into the evidence
+    try:
+        man = json.load(open(os.path.join(ROOT, 'MANIFEST.json')))
+        note = [c['level_note'] for c in man['checks'] if c['property_id'] == prop]
+        PROP_NOTES[prop] = ['NOT DECIDED by this check: ' + n for n in note]
+    except Exception:
+        pass
     assumptions = list(PROP_NOTES.get(prop, []))
     if kani_res:
         for h in kani_res['harnesses']:
